@@ -15,20 +15,20 @@ def toEvents : List Line → (Nat → Bool) → (Nat → Int × Int) → List (O
   | l :: rest, pend, seen, acc =>
     let t := l.tid
     let push (e : Ev) (pend' := pend) (seen' := seen) := toEvents rest pend' seen' ((some e, l.raw) :: acc)
-    let bad := toEvents rest pend seen ((none, l.raw) :: acc)
+    let bad (_ : Unit) := toEvents rest pend seen ((none, l.raw) :: acc)
     match l.site with
     | "ciq.load" => toEvents rest pend seen acc
     | "inv.popl" => push (.inv t .L)
     | "inv.popr" => push (.inv t .R)
     | "ciq.loaded" => push (.load t l.a l.b) pend (upd seen t (l.a, l.b))
-    | "ciq.cas" => if pend t then bad else toEvents rest (upd pend t true) seen acc
+    | "ciq.cas" => if pend t then bad () else toEvents rest (upd pend t true) seen acc
     | "ciq.iter" =>
       if pend t then push (.cas t false l.a l.b) (upd pend t false) (upd seen t (l.a, l.b))
-      else if seen t == (l.a, l.b) then toEvents rest pend seen acc else bad
-    | "ciq.ok" => if pend t then push (.cas t true l.a l.b) (upd pend t false) else bad
+      else if seen t == (l.a, l.b) then toEvents rest pend seen acc else bad ()
+    | "ciq.ok" => if pend t then push (.cas t true l.a l.b) (upd pend t false) else bad ()
     | "ret" => push (.ret t (if l.a != 0 then some l.b else none))
     | "done" => push (.done t)
-    | _ => bad
+    | _ => bad ()
 
 def accept (s : St) : List (Option Ev × String) → Nat → Except (Nat × String) St
   | [], _ => .ok s
